@@ -513,6 +513,13 @@ class Interp:
                     fi = self.prog.find_method(cq, g)
                     return self.call_function(fi, [base], {}, fr, recv_cls=cq)
                 fi = self.prog.find_method(cq, name)
+                if fi is None and name.startswith('_') and '__' in name[1:]:
+                    # a private method: self.__m inside class C is looked up as _C__m; it is defined as __m in C
+                    cls_part, _, priv = name[1:].partition('__')
+                    for c in self.prog.mro(cq):
+                        if c.rsplit('.', 1)[-1].lstrip('_') == cls_part and ('__' + priv) in self.prog.classes[c].methods:
+                            fi = self.prog.classes[c].methods['__' + priv]
+                            break
                 if fi is not None:
                     if fi.is_static:
                         return VFunc('function', fi=fi)
